@@ -23,14 +23,15 @@ WkChecks(e, contiguous) ==
                /\ Check(e.irregular \/ Dow(e.n) = e.first_dow, "regular_week_years_begin_on_first_day_of_week")
      ELSE TRUE
   \* regular rules: the declarative definition, from the calendar year starts reported for wy and wy + 1
-  /\ IF ~e.irregular
+  /\ IF ~Has(e, "ys_next") THEN TRUE
+     ELSE IF ~e.irregular
      THEN LET s0 == RegularStart(e.ys_wy, e.min_days, e.first_dow)
               s1 == RegularStart(e.ys_next, e.min_days, e.first_dow)
           IN  /\ Check(s0 <= e.n /\ e.n < s1, "date_lies_in_its_week_year")
               /\ Check(e.w = ((e.n - s0) \div 7) + 1, "week_number_counts_from_week_year_start")
               /\ Check(e.weeks = (s1 - s0) \div 7, "weeks_in_week_year")
      ELSE RefCheck(e.wy = e.y \/ e.wy = e.y - 1, "irregular_week_year_is_calendar_year_or_previous")
-  /\ IF e.cal \in ArithmeticIds /\ ~(e.cal = "Persian Arithmetic" /\ e.wy < 476) /\ e.wy >= MinYear(e.cal) /\ e.wy + 1 <= MaxYear(e.cal)
+  /\ IF Has(e, "ys_next") /\ e.cal \in ArithmeticIds /\ ~(e.cal = "Persian Arithmetic" /\ e.wy < 476) /\ e.wy >= MinYear(e.cal) /\ e.wy + 1 <= MaxYear(e.cal)
      THEN Check(e.ys_wy = YearStart(e.cal, e.wy) /\ e.ys_next = YearStart(e.cal, e.wy + 1), "machinery_year_starts_reported")
      ELSE TRUE
   /\ (Has(e, "iso_std") => Check(e.iso_std, "iso_rule_agrees_with_stdlib_isocalendar"))
